@@ -137,6 +137,71 @@ func collect(repo string) []mutant {
 			})
 		}
 	}
+	// second pass: kinds added later are numbered after the first-pass changes so that earlier ids stay valid
+	for _, f := range files {
+		if strings.HasSuffix(f, "_test.go") {
+			continue
+		}
+		src, _ := os.ReadFile(f)
+		fset := token.NewFileSet()
+		af, err := parser.ParseFile(fset, f, src, 0)
+		if err != nil {
+			panic(err)
+		}
+		base := filepath.Base(f)
+		off := func(p token.Pos) int { return fset.Position(p).Offset }
+		for _, d := range af.Decls {
+			fd, ok := d.(*ast.FuncDecl)
+			if !ok || fd.Body == nil {
+				continue
+			}
+			curFunc := fd.Name.Name
+			if fd.Recv != nil && len(fd.Recv.List) == 1 {
+				t := fd.Recv.List[0].Type
+				if st, ok := t.(*ast.StarExpr); ok {
+					t = st.X
+				}
+				if id, ok := t.(*ast.Ident); ok {
+					curFunc = id.Name + "." + curFunc
+				}
+			}
+			onlyErr := fd.Type.Results != nil && len(fd.Type.Results.List) == 1 && len(fd.Type.Results.List[0].Names) <= 1
+			if onlyErr {
+				if id, ok := fd.Type.Results.List[0].Type.(*ast.Ident); !ok || id.Name != "error" {
+					onlyErr = false
+				}
+			}
+			add := func(pos token.Pos, kind, from, to string, s, e int) {
+				out = append(out, mutant{File: base, Line: fset.Position(pos).Line, Func: curFunc, Kind: kind, From: from, To: to, start: s, end: e})
+			}
+			narrow := map[string][]string{"uint16": {"uint8"}, "uint32": {"uint16"}, "uint64": {"uint32"}, "int": {"uint16", "uint8"}, "uint8": {"int8"}, "int64": {"int32"}, "int16": {"int8"}}
+			ast.Inspect(fd.Body, func(n ast.Node) bool {
+				switch x := n.(type) {
+				case *ast.CallExpr:
+					// conversion T(x) with a narrower T, written as T'(T(x)) so that the expression keeps its type
+					if id, ok := x.Fun.(*ast.Ident); ok && len(x.Args) == 1 {
+						for _, to := range narrow[id.Name] {
+							s, e := off(x.Pos()), off(x.End())
+							add(x.Pos(), "conversion-narrowed", firstLine(string(src[s:e])), id.Name+"("+to+"("+string(src[off(x.Args[0].Pos()):off(x.Args[0].End())])+"))", s, e)
+						}
+					}
+				case *ast.SelectorExpr:
+					if id, ok := x.X.(*ast.Ident); ok && id.Name == "binary" && x.Sel.Name == "BigEndian" {
+						s, e := off(x.Sel.Pos()), off(x.Sel.End())
+						add(x.Pos(), "byte-order", "BigEndian", "LittleEndian", s, e)
+					}
+				case *ast.ReturnStmt:
+					if onlyErr && len(x.Results) == 1 {
+						if id, ok := x.Results[0].(*ast.Ident); ok && id.Name != "nil" {
+							s, e := off(id.Pos()), off(id.End())
+							add(x.Pos(), "error-dropped", "return "+id.Name, "nil", s, e)
+						}
+					}
+				}
+				return true
+			})
+		}
+	}
 	for i := range out {
 		out[i].ID = i
 	}
